@@ -350,10 +350,8 @@ fn c17_ws_server_burst(case: &Case) {
         let full = Arc::new(AtomicU64::new(0));
         let full2 = full.clone();
         // the handler can end the server itself, right after it has queued its notifies
-        let stop_tx: Arc<std::sync::Mutex<Option<tokio::sync::oneshot::Sender<()>>>> = Default::default();
-        let (stx, stop_rx) = tokio::sync::oneshot::channel::<()>();
-        *stop_tx.lock().unwrap() = Some(stx);
-        let stop2 = stop_tx.clone();
+        let token = repe::websocket_server::ShutdownToken::new();
+        let stop2 = token.clone();
         let router = Router::new()
             .with_erased_handler("/sized", Arc::new(Sized { off_reader: false }))
             .with_erased_handler("/sized_off", Arc::new(Sized { off_reader: true }))
@@ -375,10 +373,10 @@ fn c17_ws_server_burst(case: &Case) {
                     }
                     queued.push(ok);
                 }
-                if v["then_stop"].as_bool().unwrap_or(false)
-                    && let Some(tx) = stop2.lock().unwrap().take()
-                {
-                    let _ = tx.send(());
+                if v["then_stop"].as_bool().unwrap_or(false) {
+                    // the embedder cancels every connection, this one included, while the
+                    // messages just queued are still waiting for the writer
+                    stop2.cancel();
                 }
                 Ok(json!({"queued": queued}))
             });
@@ -393,11 +391,19 @@ fn c17_ws_server_burst(case: &Case) {
             }
         });
         let srv = tokio::spawn(async move {
-            let _ = server
-                .serve_listener_with_shutdown(listener, "/repe", async move {
-                    let _ = stop_rx.await;
-                })
-                .await;
+            // co-hosting style: the harness accepts, the library serves each connection under the
+            // embedder's ShutdownToken
+            let shared = server.into_shared();
+            let mut set = tokio::task::JoinSet::new();
+            loop {
+                let Ok((stream, _)) = listener.accept().await else { break };
+                let (shared, token) = (shared.clone(), token.clone());
+                set.spawn(async move {
+                    if let Ok(ws) = WebSocketServer::accept_with_limits(stream, "/repe", shared.limits()).await {
+                        let _ = shared.serve_connection_with_cancel(ws, &token).await;
+                    }
+                });
+            }
         });
         let Ok(ws) = raw_connect(addr, "/repe").await else {
             case.harness_error("handshake failed");
@@ -554,12 +560,10 @@ fn c17_ws_server_burst(case: &Case) {
             && simkernel::choose(2) == 0
         {
             let lens: Vec<usize> = [l + 1, l - 10, l + 300, l].iter().map(|s| s.saturating_sub(48 + "/pushed".len())).collect();
-            // ... with the peer's Close frame right behind that request, in the same write: the
-            // reader leaves while the writer still has those messages to get rid of
-            let last = Frame::new(9_000, b"/pushmany", &serde_json::to_vec(&json!({"tag": 900_000, "lens": lens, "broadcast": false, "then_stop": coin()})).unwrap()).with_formats(1, 2);
-            let _ = sink.feed(WsMessage::Binary(last.encode())).await;
-            let _ = sink.feed(WsMessage::Close(None)).await;
-            let _ = tokio::time::timeout(Duration::from_secs(2), sink.flush()).await;
+            // ... and the handler that queued them cancels the embedder's ShutdownToken before it
+            // returns: the connection is torn down while the writer still has them to get rid of
+            let last = Frame::new(9_000, b"/pushmany", &serde_json::to_vec(&json!({"tag": 900_000, "lens": lens, "broadcast": false, "then_stop": true})).unwrap()).with_formats(1, 2);
+            let _ = send_frame(&mut sink, &last).await;
             let ib = inbox.clone();
             if wait_until(5_000, || ib.ended()).await {
                 case.probe("connection_ended_with_messages_queued");
